@@ -23,6 +23,13 @@ Definition assert_k_of_n (k : Z) (vs : list Z) : M bool :=
   match o with
   | None => ret false
   | Some sum_bits =>
+    if Nat.ltb (length sum_bits) (length bin) then
+      (* k needs more bits than the pop count has: unsatisfiable *)
+      match sum_bits with
+      | [] => ret false
+      | b :: _ => emit [[b]; [- b]] ;;; ret true
+      end
+    else
     let lp := firstn (length sum_bits) (rev bin) in
     let lp := rev (lp ++ repeat (-1) (length sum_bits - length lp)) in
     emit (map (fun p => [fst p * snd p]) (combine lp sum_bits)) ;;; ret true
@@ -55,6 +62,13 @@ Definition inequality (lt : bool) (k : Z) (vs : list Z) : M bool :=
     kv <- nfresh (length bin) ;;
     emit (map (fun p => [fst p * snd p]) (combine kv bin)) ;;;
     p <- make_same_length kv sum_bits ;;
+    p <- (if Nat.eqb (length (fst p)) (length bin)
+             && negb (lt && (k =? 2 ^ (Z.of_nat (length bin) - 1)))
+          then (* equal widths: add a sign bit to both *)
+            z1 <- nfresh 1 ;; zero_out z1 ;;;
+            z2 <- nfresh 1 ;; zero_out z2 ;;;
+            ret (z1 ++ fst p, z2 ++ snd p)
+          else ret p) ;;
     let '(kv', sb') := p in
     let '(kbs, nbs) := if lt then (sb', kv') else (kv', sb') in
     neg <- neg_twos nbs ;;
